@@ -6,6 +6,7 @@ identity of its storage tuple; the differences between consecutive snapshots are
 (create / swap / drop), and every write attempt is judged.
 """
 import gc, random, warnings, weakref
+from values import storage
 from datetime import date as _D, datetime as _DT
 
 PID = "C15"
@@ -94,7 +95,7 @@ class Tracker:
     def snapshot(self):
         import serif
         VT = _vector_types()
-        objs = [o for o in gc.get_objects() if type(o) in VT and "_underlying" in o.__dict__]
+        objs = [o for o in gc.get_objects() if type(o) in VT and storage(o) is not None]
         cur, live = {}, {}
         for o in objs:
             ent = self.known.get(id(o))
@@ -102,7 +103,7 @@ class Tracker:
                 ent = (weakref.ref(o), self.serial)
                 self.known[id(o)] = ent
                 self.serial += 1
-            und = o.__dict__["_underlying"]
+            und = storage(o)
             conts = []
             for x in und:
                 u = self.uid(x)
@@ -260,7 +261,7 @@ def run_step(slots, pool, st):
         junk = [tuple([j] * st["n"]) for j in range(st["count"])]
         del tmp, junk
     elif op == "shareof":
-        slots[st["dst"]] = Vector(slots[st["src"]]._underlying)
+        slots[st["dst"]] = Vector(storage(slots[st["src"]]))
     elif op == "copy":
         slots[st["dst"]] = slots[st["src"]].copy()
     elif op == "slice":
@@ -392,8 +393,8 @@ def run_history(spec):
                     continue
                 cur0, live0 = tr.snapshot()
                 me = [s for s, x in live0.items() if x is o][0]
-                und = o.__dict__["_underlying"]
-                sharers = sorted(s for s, x in live0.items() if x is not o and x.__dict__["_underlying"] is und)
+                und = storage(o)
+                sharers = sorted(s for s, x in live0.items() if x is not o and storage(x) is und)
                 before = {s: list(v[1]) for s, v in cur0.items()}
                 length = len(und)
                 del live0, und
